@@ -22,3 +22,10 @@ claim('C12', 'c12_split.c',
       'For every input up to the stated length over {a,b,space,comma,",\',\\} (symbolic) and both delimiter sets, the token list equals the '
       'reference grammar\'s, the word utilities agree with the reference word scanner for every index, and no byte past the terminator is read.',
       'DESIGN.md section 4, C12')
+claim('C01', 'c01_str.c',
+      'CBMC inductive-step check: every str/ustr operation from an arbitrary invariant-satisfying state vs an ideal character-sequence model; constructors as base cases; read/fgets stubs with fault schedules',
+      'For every operation of both classes, from every state shape (text length, capacity slack, and the (NULL,0,0) empty state) with symbolic '
+      'characters, the solver shows the result equals the ideal sequence, the (text,len,size) invariant is re-established, allocation >= size, '
+      'and no access leaves the exact-size buffers; any history whose intermediate texts stay within the length bound is covered by induction. '
+      'Stream/descriptor constructors run with the 4096-byte chunk scaled to 4 under complete/short/EINTR read schedules.',
+      'DESIGN.md section 4, C01')
